@@ -2,7 +2,7 @@
 harness and for Coq, and generators."""
 import random, copy
 
-CLONE_OK = {0: True, 1: True, 2: True, 3: True, 4: False, 5: False, 6: True, 7: True, 9: False, 38: True, 39: True}   # 9: P::mt -> (Uniq, &str, Uniq): two single-use slots
+CLONE_OK = {0: True, 1: True, 2: True, 3: True, 4: False, 5: False, 6: True, 7: True, 9: False, 38: True, 39: True, 40: True}   # 9: P::mt -> (Uniq, &str, Uniq): two single-use slots
 HAS_DEFAULT = {2, 3}
 HAS_UNMOCK = {0, 2, 4}
 ALL_MIDS = list(range(8))
